@@ -14,6 +14,7 @@ import QuinnModel.Drv.AckFrequency
 import QuinnModel.Drv.CidState
 import QuinnModel.Drv.CidQueue
 import QuinnModel.Drv.Conn
+import QuinnModel.Drv.Udp
 import QuinnModel.Drv.Sbuf
 import QuinnModel.Drv.Asm
 /-
@@ -49,6 +50,7 @@ def step (s : St) (line : String) : St × String :=
   | "life" :: r => (s, Drv.life r)
   | "timers" :: r => (s, Drv.timers r)
   | "pathm" :: r => (s, Drv.pathm r)
+  | "udp" :: r => (s, Drv.udp r)
   | "dedup" :: r => let (d, o) := Drv.dedup s.dedup r; ({ s with dedup := d }, o)
   | "sbuf" :: r => let (d, o) := Drv.sbuf s.sbuf r; ({ s with sbuf := d }, o)
   | "asm" :: r => let (d, o) := Drv.asm s.asm r; ({ s with asm := d }, o)
